@@ -4,6 +4,7 @@ import (
 	"bytes"
 	"fmt"
 	"sort"
+	"strings"
 	"time"
 
 	"verifsim/cluster"
@@ -13,6 +14,7 @@ import (
 
 	"github.com/MixinNetwork/mixin/common"
 	"github.com/MixinNetwork/mixin/crypto"
+	"github.com/MixinNetwork/mixin/storage"
 )
 
 // C15 — finalizing a snapshot is atomic and idempotent.
@@ -55,6 +57,9 @@ func c15Gen(rng *core.Rng, tier string) *harness.Plan {
 	if rng.Chance(0.6) {
 		p.Params["chain_skew_ms"] = int64(1 + rng.IntN(40))
 	}
+	if rng.Chance(0.5) {
+		p.Params["commit_crash"] = 1
+	}
 	w := []int{5 + rng.IntN(4), 2 + rng.IntN(3), 1 + rng.IntN(2), rng.IntN(3), rng.IntN(3), 4 + rng.IntN(4), rng.IntN(3), rng.IntN(2)}
 	kinds := []string{"deposit", "spend", "member", "poison", "clash", "snapshot", "share", "restart"}
 	for i := 0; i < n; i++ {
@@ -69,6 +74,9 @@ func c15Gen(rng *core.Rng, tier string) *harness.Plan {
 	}
 	return p
 }
+
+// c15Stop is the panic value of an injected process stop.
+type c15Stop struct{}
 
 type c15Asset struct {
 	id    crypto.Hash
@@ -314,11 +322,60 @@ func c15Exec(p *harness.Plan) *harness.Outcome {
 			// chains carry their own clocks: a snapshot written later on another chain may well be stamped
 			// earlier than the one that first finalized a shared transaction (DAG, per-chain timestamps)
 			snapTs := ts - uint64(node)*uint64(p.P("chain_skew_ms", 0))*uint64(time.Millisecond)
-			if g := c.guard("write-panic", func() { _, werr = f.Finalize(node, snapTs, vers, nil) }); g != nil {
+			// some writes are cut right before the k-th Badger commit they issue (process stop at commit
+			// granularity, seam: storage instrumentation overlay); the store is then reopened from disk
+			crashAt, commits, crashed := 0, 0, false
+			if p.P("commit_crash", 0) == 1 && op.C%4 == 0 {
+				crashAt = 1 + int(op.C/4)%3
+				storage.SimPoint = func(pt string) {
+					if strings.HasPrefix(pt, "commit:") {
+						commits++
+						if commits == crashAt {
+							panic(c15Stop{})
+						}
+					}
+				}
+			}
+			g := c.guard("write-panic", func() {
+				defer func() {
+					if r := recover(); r != nil {
+						if _, ok := r.(c15Stop); !ok {
+							panic(r)
+						}
+						crashed = true
+					}
+				}()
+				_, werr = f.Finalize(node, snapTs, vers, nil)
+			})
+			storage.SimPoint = nil
+			if g != nil {
 				return g
+			}
+			if crashed {
+				c.out.Faults["crash.before_commit_inside_WriteSnapshot"]++
+				if err := f.Reopen(false); err != nil {
+					return c.tool(err)
+				}
 			}
 			after := f.Dump()
 			added, removed, changed := storerig.DiffDumps(before, after)
+			if crashed {
+				c.out.Evals++
+				c.logf("%s n%d members=%d stopped before commit %d: +%d -%d ~%d", op.Kind, node, len(members), crashAt, len(added), len(removed), len(changed))
+				if len(added)+len(removed)+len(changed) == 0 {
+					continue // nothing of it is durable: as if never written (members stay pending)
+				}
+				if crashAt == 1 {
+					return c.viol("partial-write-after-stop", "op %d: the write was stopped before its first commit yet the reopened database changed: +%v -%v ~%v", i, storerig.CountByPrefix(added), storerig.CountByPrefix(removed), storerig.CountByPrefix(changed))
+				}
+				// stopped between two commits of one snapshot write: whatever is durable must already be the
+				// complete effect, judged below exactly like a completed write
+				if fail != "" {
+					return c.viol("partial-write-after-stop", "op %d: a snapshot write that cannot succeed (%s) left durable changes when stopped between its commits: +%v", i, fail, storerig.CountByPrefix(added))
+				}
+				f.NextTopo++
+				werr = nil
+			}
 			c.out.Evals++
 			c.logf("%s n%d members=%d expectfail=%q err=%v", op.Kind, node, len(members), fail, werr != nil)
 			if fail != "" {
